@@ -324,6 +324,45 @@ fn check_real_out_buffers(c: &KCase, obs: &mut Obs) -> CheckResult {
     if touched != reference.iter().filter(|v| **v != SENT).count() {
         return fail(format!("{}:ndarray-out-view:outside-write", name), format!("{} wrote outside its out view (step {})", name, step));
     }
+    // (c) an output element type with drop glue: the caller's (initialised, sentinel-filled) Vec buffer is
+    // overwritten without its old contents being read or dropped; every slot gets the value of the call
+    {
+        use std::rc::Rc;
+        use tevec::prelude::Vec1View;
+        let sentinel = Rc::new(-1.0f64);
+        let mut buf: Vec<MaybeUninit<Rc<f64>>> = (0..len).map(|_| MaybeUninit::new(sentinel.clone())).collect();
+        let mut acc = 0.0f64;
+        let ret: Option<Vec<Rc<f64>>> = data.rolling_apply::<Vec<Rc<f64>>, Rc<f64>, _>(
+            w,
+            |rm, x| {
+                if let Some(r) = rm {
+                    if !r.is_nan() {
+                        acc -= r;
+                    }
+                }
+                if !x.is_nan() {
+                    acc += x;
+                }
+                Rc::new(acc)
+            },
+            Some(&mut buf[..]),
+        );
+        if ret.is_some() {
+            return fail("rolling_apply<Rc>:out-path", "a value was returned although a buffer was supplied");
+        }
+        let count_after = Rc::strong_count(&sentinel);
+        let vals: Vec<Rc<f64>> = buf.into_iter().map(|v| unsafe { v.assume_init() }).collect();
+        if vals.iter().any(|v| Rc::ptr_eq(v, &sentinel)) {
+            return fail("rolling_apply<Rc>:unwritten-slot", format!("a slot of the caller's buffer still holds the sentinel (len {}, w {})", len, w));
+        }
+        if count_after != len + 1 {
+            return fail("rolling_apply<Rc>:old-contents-dropped", format!("writing {} results into a caller-supplied buffer of Rc elements changed the reference count of its old contents from {} to {}: the uninitialised slots were read / dropped", len, len + 1, count_after));
+        }
+        // the old contents were never dropped by the library (MaybeUninit semantics): release them here
+        for _ in 0..len {
+            unsafe { Rc::decrement_strong_count(Rc::as_ptr(&sentinel)) };
+        }
+    }
     obs.set_nontrivial(len >= 3 && (wrapped || step != 1));
     obs.class_if(wrapped, "out_deque_wrapped");
     obs.class_if(step != 1, "out_view_strided");
